@@ -22,6 +22,26 @@ CLAIMED = {
             "and of all method-level / line-level schedules with bounded preemptions of concurrent hits. Beyond the "
             "bounds this is exploration, not proof.",
             TRUSTED + "; time is the virtual clock; windows are set on LocationAction directly"),
+    'C09': (['TaskFlush', 'Trace_TaskFlush'],
+            "TLA+ spec TaskFlush.tla (submit/pool/callback/flush micro-steps) model-checked with TLC incl. liveness; "
+            "the real TaskHandler run under a cooperative scheduler with a controlled executor over every "
+            "bounded-preemption schedule (method and line granularity), each execution trace validated against the spec "
+            "by TLC",
+            "Exhaustive within bounds for the design (1-2 submitters, <=3 jobs, 2 workers, any job failing, flush racing "
+            "with submit/completion; safety + liveness under weak fairness). The implementation is bound by TLC-validated "
+            "traces of all schedules with <=2-3 preemptions of scripted submitters/flusher/workers on the real "
+            "TaskHandler, plus randomized runs of the real PushService on the real 2-thread pool against a fake channel "
+            "(send count, sending thread, failure containment). Exploration beyond the bounds, not proof.",
+            TRUSTED + "; tasks finish within flush's 10 s per-task wait"),
+    'C10': (['Limiter', 'MC_Limiter', 'Trace_Limiter', 'ExprScope'],
+            "TLA+ specs Limiter.tla (condition gate: RejectedHitIsFree, ConditionGates) and ExprScope.tla (scope/failure "
+            "table) checked with TLC; every ExprScope state and walks of the Limiter graph replayed into the real "
+            "evaluator/limiter; recorded hit histories validated against the spec by TLC",
+            "The condition/budget interaction is model-checked exhaustively within bounds and bound to the code by graph "
+            "replay and TLC-validated histories; the scope rules are a finite table (315 states: name class x evaluation "
+            "site x failure wrap x neighbour) enumerated completely by TLC and turned into one implementation test per "
+            "state. Truthiness is asserted only for True/False/failing results.",
+            TRUSTED + "; expressions are side-effect free"),
 }
 
 NOT_YET = {}
